@@ -270,6 +270,15 @@ def generate(unit_dir, mustfail=False, mutate=None, variant=None, template='unit
                 elif k == 'alias':
                     spec['aliases'][hdr[1]] = hdr[2]
                     spec['rules'].add('R8')
+                elif k == 'rewrite':
+                    # R11: an expression the verifier cannot take (char-pattern string methods) is replaced, textually and exactly,
+                    # by a call of a contract-less stand-in: `//@@ rewrite <source text> => <replacement>`
+                    joined = ' '.join(hdr[1:])
+                    if ' => ' not in joined:
+                        raise ExtractError('%s: rewrite needs `<from> => <to>`' % tpath)
+                    frm, to = joined.split(' => ', 1)
+                    spec.setdefault('rewrites', []).append((frm, to))
+                    spec['rules'].add('R11')
                 elif k == 'macro':
                     spec['macros'][hdr[1]] = ' '.join(x.strip() for x in body if x.strip())
                 else:
